@@ -260,6 +260,9 @@ def run(P, R, tier):
     errview_rule(P, R)
     growbail_rule(P, R)
     usedump_rule(P, R)
+    strparam_rule(P, R)
+    gfwout_rule(P, R)
+    mixfind_rule(P, R)
     bracketend_rule(P, R)
     boundfirst_rule(P, R)
     progindex_rule(P, R)
@@ -2307,3 +2310,157 @@ def bracketend_rule(P, R):
                                 "token makes it step over the terminator and read what follows the token" % x[1], file=g["file"], line=x[1], function=g["q"])
     if n_inst < 2:
         R.anchor_missing(RULE, "only %d `until ]` loops in the get_elt functions" % n_inst)
+
+
+def mixfind_rule(P, R):
+    """The numbers in a MIX block are whatever the user wrote; the solutions need not exist.  Inside every loop over Get_mixComps() a
+    pointer taken from Rxn_find(Rxn_solution_map, <component number>) is null-tested in a condition that governs each of its
+    dereferences (add_mix reports the missing solution; the other loops run before or after it and must not crash first)."""
+    RULE = "C08.mixfind"
+    R.rule(RULE, "loops over the components of a MIX null-test the solution they look up before using it", minimum=5)
+    n_inst = 0
+    for k, g in sorted(P.functions.items(), key=lambda kv: kv[1]["q"]):
+        for lp in T.walk(g["body"]):
+            if lp[0] != "For" or "Get_mixComps" not in T.text(lp[2], -40) + T.text(lp[3], -40):
+                continue
+            found = set()
+            for t, how, l, x in T.writes(lp[5]):
+                if how == "=" and "Rxn_find" in T.text(x[4], -40) and T.is_node(t) and t[0] == "Ref":
+                    found.add(t[3])
+            for d in T.walk(lp[5]):
+                if d[0] == "Decl":
+                    for v in d[2]:
+                        if len(v) > 2 and T.is_node(v[2]) and "Rxn_find" in T.text(v[2], -40):
+                            found.add(v[0])
+            for v in sorted(found):
+                n_inst += 1
+                inst = "%s@%d:%s" % (g["q"].split("::")[-1], lp[1] - g["line"], v)
+                bad = None
+                for y in T.walk(lp[5]):
+                    b = None
+                    if y[0] == "Member" and T.is_node(y[3]):
+                        b = T.strip_casts(y[3])
+                    elif y[0] == "Call" and T.call_obj(y) is not None:
+                        b = T.strip_casts(T.call_obj(y))
+                    if not (T.is_node(b) and b[0] == "Ref" and b[3] == v):
+                        continue
+                    acc = []
+                    governing(lp[5], y, acc)
+                    if not any(v in nulltests(c) for c in acc):
+                        bad = y[1]
+                        break
+                if bad is None:
+                    R.ok(RULE, inst, "every use of %s in the loop is governed by its null test" % v)
+                else:
+                    R.violation(RULE, inst, "`%s` is looked up for a MIX component and dereferenced at line %d without a null test: a MIX that names a solution that does not exist "
+                                "crashes the process before add_mix can report it" % (v, bad), file=g["file"], line=bad, function=g["q"])
+    if n_inst < 5:
+        R.anchor_missing(RULE, "only %d solution look-ups inside loops over Get_mixComps() (6 confirmed)" % n_inst)
+
+
+def gfwout_rule(P, R):
+    """"Not a silent result": the BASIC function GFW hands compute_gfw the address of a local that holds no value and uses the local
+    whatever compute_gfw returns (an unbalanced formula is reported with CONTINUE and the program goes on).  So every path of
+    compute_gfw to a return has written `*gfw` - or every caller that discards the result initialises its local."""
+    RULE = "C08.gfwout"
+    R.rule(RULE, "compute_gfw writes its out-parameter on every path to a return (callers use it without looking at the result)", minimum=2)
+    f = P.one("Phreeqc::compute_gfw")
+    cfg = T.CFG(f)
+
+    def writes_out(n):
+        return T.is_node(n) and any(" ".join(T.text(t, -40).split()) in ("*gfw", "* gfw") for t, how, l, x in T.writes(n))
+    rets = [i for i, nd in enumerate(cfg.nodes) if T.is_node(nd["n"]) and nd["n"][0] == "Return"]
+    callers = []
+    for k, g in sorted(P.functions.items(), key=lambda kv: kv[1]["q"]):
+        uninit = set()
+        for d in T.walk(g["body"]):
+            if d[0] == "Decl":
+                for v in d[2]:
+                    if not (len(v) > 2 and T.is_node(v[2])):
+                        uninit.add(v[0])
+        for comp in T.walk(g["body"]):
+            if comp[0] != "Compound":
+                continue
+            for st in comp[2]:
+                if T.is_node(st) and st[0] == "Call" and T.callee_name(st) == "compute_gfw" and len(st[4]) >= 2:
+                    a = T.strip_casts(st[4][1])
+                    if T.is_node(a) and a[0] == "Un" and a[2] == "&" and T.is_node(a[3]) and a[3][0] == "Ref" and a[3][3] in uninit:
+                        callers.append((g["q"], st[1], a[3][3]))
+    if len(rets) < 2:
+        R.anchor_missing(RULE, "compute_gfw returns: %d" % len(rets))
+        return
+    if not callers:
+        for i in rets:
+            R.ok(RULE, "compute_gfw:return@%d" % (cfg.nodes[i]["line"] - f["line"]), "no caller discards the result while passing a local that holds no value")
+        return
+    # forward search from the entry that stops at a write of *gfw: a return reached by it is a return without a value
+    seen, todo, bad = set(), [cfg.entry], []
+    while todo:
+        i = todo.pop()
+        if i in seen:
+            continue
+        seen.add(i)
+        nd = cfg.nodes[i]
+        if writes_out(nd["n"]):
+            continue
+        if T.is_node(nd["n"]) and nd["n"][0] == "Return":
+            bad.append(nd["line"])
+            continue
+        todo.extend(nd["succ"])
+    for i in rets:
+        line = cfg.nodes[i]["line"]
+        inst = "compute_gfw:return@%d" % (line - f["line"])
+        if line in bad:
+            q, l, v = callers[0]
+            R.violation(RULE, inst, "the return at line %d is reached without a write of *gfw, and %s (line %d) uses its unset local `%s` whatever compute_gfw returns: "
+                        "GFW(\"Na(\") punches an uninitialised double" % (line, q, l, v), file=f["file"], line=line, function=f["q"])
+        else:
+            R.ok(RULE, inst, "*gfw written on every path to line %d" % line)
+
+
+def strparam_rule(P, R):
+    """PBasic::stringexpr(char*) / stringfactor(char*) evaluate a string expression of the running program and strcpy it into the buffer
+    the caller passed.  The expression can be of any length (concatenation); where a caller passes a fixed array, the callee tests the
+    length against a literal that fits the smallest such array before the copy and leaves through the BASIC error path."""
+    RULE = "C08.strparam"
+    R.rule(RULE, "PBasic: a program string copied into a caller's fixed array is length-tested first", minimum=1)
+    n_inst = 0
+    for q in ("PBasic::stringexpr", "PBasic::stringfactor"):
+        for f in P.fns_named(q):
+            if not f.get("params") or f["params"][0].replace(" ", "") != "char*":
+                continue
+            copies = [c for c in T.calls(f["body"]) if T.callee_name(c) in ("strcpy", "strcat") and len(c[4]) >= 2]
+            if not copies:
+                continue
+            sizes = []
+            for k, g in P.functions.items():
+                for c in T.calls(g["body"]):
+                    if T.callee_name(c) == q.split("::")[-1] and c[4]:
+                        a = T.strip_casts(c[4][0])
+                        m = re.match(r"^char ?\[(\d+)\]$", str(a[4])) if T.is_node(a) and a[0] == "Ref" else None
+                        if m:
+                            sizes.append((int(m.group(1)), g["q"], c[1]))
+            n_inst += 1
+            inst = q.split("::")[-1] + "(char*)"
+            if not sizes:
+                R.ok(RULE, inst, "no caller passes a fixed array")
+                continue
+            small = min(sizes)
+            for c in copies:
+                src = " ".join(T.text(c[4][1], -40).split())
+                ok = False
+                for x in T.walk(f["body"]):
+                    if x[0] == "If" and x[1] < c[1] and any(T.callee_name(k) in ("tmerr", "errormsg", "snerr") or k[0] == "Throw" for k in list(T.calls(x[3])) + [y for y in T.walk(x[3]) if y[0] in ("Throw", "Return")]):
+                        for b in T.walk(x[2]):
+                            if b[0] == "Bin" and b[2] in (">", ">=") and "strlen" in T.text(b[3], -40) and src in " ".join(T.text(b[3], -40).split()):
+                                lim = T.lit_value(T.strip_casts(b[4]))
+                                if lim is not None and (lim < small[0] if b[2] == ">" else lim <= small[0]):
+                                    ok = True
+                if ok:
+                    R.ok(RULE, inst, "strlen(%s) tested against the %d-character array of %s before the copy" % (src, small[0], small[1]))
+                else:
+                    R.violation(RULE, inst, "%s copies `%s` with %s into the caller's buffer; %s (line %d) passes char[%d] and no length test precedes the copy: a string "
+                                "expression built by concatenation overruns the stack array" % (q, src, T.callee_name(c), small[1], small[2], small[0]),
+                                file=f["file"], line=c[1], function=f["q"])
+    if n_inst < 1:
+        R.anchor_missing(RULE, "stringexpr(char*) / stringfactor(char*) with a strcpy not found")
